@@ -59,17 +59,16 @@ def r1_agreement(rep, ctx):
               "conversion routes look unit infos up with different flags: %s (one container kind / route accepts units another rejects)" % {str(k): v for k, v in flags.items()}, fn=m.func("UnitDatabase.Convert"))
     # container kind of the element-wise branch
     cv = m.func("UnitDatabase.Convert")
+    from ..facts import facts as nfacts
+    ccfg = CFG(cv.node)
     rets = [r for r in own_nodes(cv.node) if isinstance(r, ast.Return) and isinstance(r.value, ast.Call) and isinstance(r.value.func, ast.Name) and r.value.func.id in ("tuple", "list")]
     kinds = {}
     for r in rets:
-        par = r._parent
-        if isinstance(par, ast.If):
-            t = ast.unparse(par.test).replace(" ", "")
-            is_tuple_test = t == "isinstance(value,tuple)"
-            in_body = r in par.body
-            kinds[r.value.func.id] = (is_tuple_test, in_body)
-    ok = kinds.get("tuple") == (True, True) and kinds.get("list") == (True, False)
-    rep.check(ok, "C02.R1", "Convert:container-kind", "the element-wise branch returns a tuple exactly for tuple input and a list otherwise", "the element-wise branch chooses its container as %s" % kinds, fn=cv)
+        for k, l_, r_, pos in nfacts(ccfg, ccfg.node_of(r)):
+            if k == "truth" and isinstance(l_, ast.Call) and ast.unparse(l_).replace(" ", "") == "isinstance(value,tuple)":
+                kinds[r.value.func.id] = pos
+    ok = kinds.get("tuple") is True and kinds.get("list") is False
+    rep.check(ok, "C02.R1", "Convert:container-kind", "the element-wise branch returns a tuple exactly for tuple input and a list otherwise", "the element-wise branch chooses its container as %s (tuple/list under isinstance(value, tuple) being)" % kinds, fn=cv)
     # _ConvertWithExp shape
     fn = m.method("UnitDatabase", "_ConvertWithExp")
     res = Resolver(m, fn)
@@ -97,10 +96,21 @@ def r1_agreement(rep, ctx):
         raise AnalysisError("_ConvertWithExp: the root-convert-power idiom (math.pow(value, 1.0 / from_exp) ... math.pow(value, to_exp)) was not found: the checker cannot tell whether another algorithm honours the exponent")
     order_ok = bool(root) and bool(power) and root[0].lineno < [c for c in convs if c not in direct][0].lineno < power[0].lineno
     rep.check(order_ok, "C02.R1", "_ConvertWithExp:root-convert-power", "for other exponents the e-th root is converted and the result raised to the target exponent", "the exponent arm does not take the root before and the power after the conversion", fn=fn)
-    if not any(isinstance(x, ast.Name) and x.id == "negative" for x in ast.walk(fn.node)):
-        raise AnalysisError("_ConvertWithExp: sign handling idiom changed")
-    neg = [st for st in own_statements(fn.node) if isinstance(st, ast.Return) and ast.unparse(st.value).replace(" ", "") == "-ret"]
-    rep.check(len(neg) == 1 and isinstance(neg[0]._parent, ast.If) and ast.unparse(neg[0]._parent.test) == "negative", "C02.R1", "_ConvertWithExp:sign", "the sign of a negative value is restored", "the sign of a negative value is not restored", fn=fn)
+    # sign: the result for a negative input is the negated power (if/else or conditional expression)
+    neg_ok = False
+    seen_plain = False
+    for r in own_nodes(fn.node):
+        if isinstance(r, ast.Return) and r.value is not None:
+            t = res.term(r.value)
+            for a in alternatives(t):
+                if a[0] == "op" and a[1] == "USub" and any(x[0] == "call" and x[1] in (("attr", ("name", "math"), "pow"), ("name", "pow")) for x in walk(a)):
+                    neg_ok = True
+                if a[0] == "call" and a[1] in (("attr", ("name", "math"), "pow"), ("name", "pow")):
+                    seen_plain = True
+    tests_neg = any(isinstance(x, ast.Compare) and ast.unparse(x).replace(" ", "") in ("value<0.0", "value<0", "0.0>value", "0>value") for x in ast.walk(fn.node))
+    if not seen_plain:
+        raise AnalysisError("_ConvertWithExp: the returned power was not found (idiom changed)")
+    rep.check(neg_ok and tests_neg, "C02.R1", "_ConvertWithExp:sign", "the sign of a negative value is restored", "the sign of a negative value is not restored", fn=fn)
 
 
 # ------------------------------------------------------------------------------------------------
@@ -212,7 +222,15 @@ def r3_own_unit(rep, ctx):
     rep.floor("C02.R3", "converting returns of ConvertScalarValue", n, 2)
     # Array.GetAbstractValue: own unit returns the stored values (borrowed obligation is in R2); Scalar unit None
     sfn = m.own_method("Scalar", "GetAbstractValue")
-    ok = any(isinstance(r, ast.Return) and ast.unparse(r.value) == "self._value" and isinstance(r._parent, ast.If) and ast.unparse(r._parent.test) == "unit is None" for r in own_nodes(sfn.node))
+    from ..facts import facts as nfacts, none_fact
+    scfg = CFG(sfn.node)
+    ok = False
+    for r in own_nodes(sfn.node):
+        if isinstance(r, ast.Return) and r.value is not None and ast.unparse(r.value) == "self._value":
+            for f in nfacts(scfg, scfg.node_of(r)):
+                nf = none_fact(f)
+                if nf and isinstance(nf[0], ast.Name) and nf[0].id == "unit" and nf[1]:
+                    ok = True
     rep.check(ok, "C02.R3", "Scalar.GetAbstractValue:no-unit", "without a unit the stored value is returned", "Scalar.GetAbstractValue() does not return the stored value when no unit is given", fn=sfn)
     # UnitDatabase.Convert: equal composed units return the value
     cv = m.func("UnitDatabase.Convert")
@@ -257,6 +275,23 @@ def r4_category(rep, ctx):
                     while p is not None and not (isinstance(p, ast.If) and "GetCategory()" in ast.unparse(p.test)):
                         p = getattr(p, "_parent", None)
                     ok = p is not None and any(c is x for b in p.orelse for x in ast.walk(b))
+            if not ok and q is not None:
+                # conditional-expression / local form: every alternative is the own quantity or ObtainQuantity(unit[, category]);
+                # the category-less form is only acceptable next to the form that passes the source's category
+                alts = alternatives(q)
+                def kind(a):
+                    if a == ("field", "_quantity"):
+                        return "own"
+                    if a[0] == "call" and a[1] == ("name", "ObtainQuantity") and len(a[2]) == 2:
+                        c2 = a[2][1]
+                        if all(x == ("param", 3, "category") or x == ("call", ("attr", ("field", "_quantity"), "GetCategory"), (), ()) for x in alternatives(c2)):
+                            return "with-category"
+                    if a[0] == "call" and a[1] == ("name", "ObtainQuantity") and len(a[2]) == 1:
+                        return "bare"
+                    return "other"
+                kinds_ = {kind(a) for a in alts}
+                has_cat_test = any(isinstance(x, (ast.If, ast.IfExp)) and any(s2 == ("call", ("attr", ("field", "_quantity"), "GetCategory"), (), ()) for s2 in walk(res.term(x.test))) for x in ast.walk(cc.node))
+                ok = "other" not in kinds_ and ("bare" not in kinds_ or ("with-category" in kinds_ and has_cat_test))
             rep.check(ok, "C02.R4", "CreateCopy:%s" % norm(ast.unparse(c))[:80], "the copy keeps the source's quantity, or is re-expressed under the given / the source's category",
                       "CreateCopy builds the copy with %s: the category of the source is lost (falls back to the unit's default category)" % why, node=c, fn=cc)
     # ConvertScalarToCurrent
